@@ -1,13 +1,15 @@
 #!/bin/sh
 # Run every seeded mutation against the current machinery (quick tier) and list the ones NOT reported.
-# usage: tools/seedregress.sh [glob, default C*]   — takes about an hour; nothing else may use /repo meanwhile.
+# usage: tools/seedregress.sh [glob, default C*]   — takes 2-3 hours; nothing else may use /repo or rebuild /verif meanwhile.
 cd /verif
 log=/verif/.cache/regress.log
 : > $log
 for d in seeded/${1:-C*}; do
   n=$(basename $d)
   [ -f $d/patch.diff ] || continue
+  t0=$(date +%s)
   res=$(tools/seedtest.sh $n 2>&1 | grep -E "tier=|does not apply|not clean" | tail -1 | cut -c1-160)
-  echo "$n $res" >> $log
+  t1=$(date +%s)
+  echo "$n $((t1-t0))s $res" >> $log
 done
 echo "== not reported:"; grep -v -- "-> FAIL" $log
